@@ -184,8 +184,8 @@ def check(chk: Check) -> None:
     for label, fi, thunk, ignore, where in units(chk):
         paths = thunk()
         closures = []
-        for p in paths[:1]:
-            for c in p.closures:
+        for c in om.all_closures(paths):
+            if True:
                 closures.append(closure_paths(F, fi, c))
         for plist in [paths] + closures:
             for p in plist:
